@@ -277,18 +277,18 @@ Definition expand4 (a len : N) : list str :=
   let diff := (8 - len mod 8) mod 8 in
   map (pat4 ((len + diff) / 8)) (subnets 32 a len diff).
 
-(* the loop `for i in range(len(first)): if first[i] != last[i]: break` *)
-Inductive scan := DiffAt (i : nat) | NoDiff | IndexErr.
+(* the loop `for i in range(min(len(first), len(last))): if first[i] != last[i]: break`
+   (before the repair of D29 the range was len(first) and a longer first text - a scoped /128 -
+   raised IndexError) *)
+Inductive scan := DiffAt (i : nat) | NoDiff.
 Fixpoint first_diff (first last : str) (i : nat) : scan :=
   match first with
   | [] => NoDiff
   | x :: f' => match last with
-               | [] => IndexErr
+               | [] => NoDiff
                | y :: l' => if N.eqb x y then first_diff f' l' (S i) else DiffAt i
                end
   end.
-
-Definition C_IndexError : N := 2.
 
 Definition pat6 (newlen : N) (scope : option str) (sub : N) : outcome str :=
   let addr_text := show6 sub ++ match scope with Some z => c_pcnt :: z | None => [] end in
@@ -296,7 +296,6 @@ Definition pat6 (newlen : N) (scope : option str) (sub : N) : outcome str :=
   match first_diff addr_text last 0 with
   | DiffAt i => Ok (firstn i (addr_text ++ [c_slash] ++ dec3 newlen) ++ [c_star])
   | NoDiff => Ok addr_text
-  | IndexErr => Crash C_IndexError
   end.
 
 Fixpoint oall {A} (l : list (outcome A)) : outcome (list A) :=
